@@ -71,6 +71,14 @@ def c17_board(req):
         got = ts(sb.idxToDate(i, True))
         if got != want:
             note(f"clamped time({i}) = {got}, nearest bound {want}")
+    # instants just outside the table (the slot after the last one, the slot before the first): an index is an index of the table
+    for t in (s + n * g, s + n * g + g // 2, s + (n + 1) * g - 1, s - 1, s - g):
+        try:
+            i = sb.dateToIdx(dt(t), False)
+            if not (0 <= i < n):
+                note(f"instant {t} outside the table: index {i} returned without clamping (table has {n} slots)")
+        except IndexError:
+            pass
     far = e + 5 * g + 1
     try:
         sb.dateToIdx(dt(far), False)
